@@ -6,8 +6,8 @@ import c10 as mp
 from vlib import Stream, BUILD, model_cmd
 
 ID = "C15"
-LEAN_MODULES = ["HgVerif.Props.C15", "HgVerif.Props.C02Fail", "HgVerif.Props.C15Flow", "HgVerif.Props.C10", "HgVerif.Model.Engine", "HgVerif.Model.Extracted"]
-THEOREMS = ["HgVerif.Tie.tie_resumeChecksFailed", "HgVerif.Sched.failed_cycle_restarts", "HgVerif.Sched.stale_cursor_skips_prefix",
+LEAN_MODULES = ["HgVerif.Props.NestFlowCor", "HgVerif.Props.C15", "HgVerif.Props.C02Fail", "HgVerif.Props.C15Flow", "HgVerif.Props.C10", "HgVerif.Model.Engine", "HgVerif.Model.Extracted"]
+THEOREMS = ["HgVerif.NestFlow.nested_noninterference", "HgVerif.Tie.tie_resumeChecksFailed", "HgVerif.Sched.failed_cycle_restarts", "HgVerif.Sched.stale_cursor_skips_prefix",
             "HgVerif.Sched.fresh_cycle_scans_all", "HgVerif.Sched.armed_wakeup_survives_failure", "HgVerif.Tie.tie_failKeepsWakeups", "HgVerif.Flow.sol_agree_on", "HgVerif.Flow.cycle_noninterference", "HgVerif.Flow.idle_cycle_keeps", "HgVerif.MapNode.map_error_keyed", "HgVerif.Sched.fresh_when_cursor_zero", "HgVerif.Sched.stale_cursor_witness"]
 CXX_TARGETS = ["hgv_engine", "hgv_map"]
 USES_EXTRACT = True
@@ -28,7 +28,8 @@ LEVEL_TEXT = ("Kernel-checked: after a failed (captured) evaluation the next eva
               "engine model (same Sched.cycle definition) is compared trace-for-trace with the real runtime on generated "
               "programs, and every implementation trace is checked against a dataflow reading that demands one error tick in "
               "the failing cycle, undisturbed independent streams and normal later cycles."
-              ' Wrapped sub-graphs whose result does not depend on the thrower, read by an outside sampler woken by an unrelated input, are part of the generated programs (the independent result of the failing cycle must arrive and stay readable).')
+              ' Wrapped sub-graphs whose result does not depend on the thrower, read by an outside sampler woken by an unrelated input, are part of the generated programs (the independent result of the failing cycle must arrive and stay readable).'
+              ' Through nested graphs (Props/NestFlowCor.lean): for a producer-closed set U of nodes spanning any levels of a chain of nested flat dataflows, replacing the node functions outside U (even nested differently) leaves the state and schedule slot of every node of U after a cycle unchanged (nested_noninterference).')
 LEVEL_NOTE = ("Trusted: Lean kernel + standard axioms; hand-written engine model (tied by correspondence); the Python "
               "reference monitor. map_ per-key capture is not part of this check's generator.")
 
